@@ -5,8 +5,7 @@
 From Coq Require Import Reals ZArith List.
 Set Warnings "-ambiguous-paths".
 From Coquelicot Require Import Coquelicot.
-From Verif Require Import lib.C20_Numpy gen.WinHelp C20.Model
-     C20.ProofsWin C20.ProofsGamma C20.ProofsShift C20.ProofsGauss C20.ProofsAcc.
+From Verif Require Import lib.C20_Numpy gen.WinHelp C20.Model C20.ProofsWin C20.ProofsGamma C20.ProofsShift C20.ProofsGauss C20.ProofsAcc.
 Open Scope R_scope.
 
 (** Windows: exactly [width] samples (none for width <= 0) *)
